@@ -427,17 +427,23 @@ def r5_walker_wiring(ctx):
     require_idiom(ok, 'c02.py:381')
     yield Ob('nodeCounter:NodeCounter.reset_to_node drops exactly the counts below the node', ok, ctx.floc(fn), '' if ok else 'reset changed')
     fn = ctx.func('path', 'X12Path.is_child_path')
-    tab = {"self.format().split('/')": 'root', "child_path.split('/')": 'child', 'root': 'root', 'child': 'child'}
-    t = []
-    for n in ast.walk(fn):
-        if isinstance(n, ast.If) and _definitely_returns_const(n.body, False):
-            e = A.abstract(n.test, tab)
-            if 'len(root)' in norm(e) and 'len(child)' in norm(e):
-                t.append(e)
-    require_idiom(len(t) == 1, 'c02.py:is_child_path length test')
-    ok = [bool(A.ev(t[0], {'root': (0,) * a, 'child': (0,) * 3})) for a in (2, 3, 4)] == [False, True, True]
-    yield Ob('path:X12Path.is_child_path a path is not its own child', ok, ctx.floc(fn), '' if ok else 'length test changed: reset_to_node would delete the node\'s own count')
-    # --- x12n_document restarts the counts at every ISA / GS
+    # decided by constant propagation through is_child_path (and any helper it was split into) on concrete path pairs:
+    # a strict descendant is a child; the path itself, an ancestor, a sibling with a common text prefix and a foreign path are not
+    from ..absint import run_function, helper_oracles, NotClosedTest
+    funcs = helper_oracles(ctx, 'path')
+    g_ = ctx.cfg(fn)
+    bad = []
+    for root, child, want in (('/A/B', '/A/B', False), ('/A/B', '/A/B/C', True), ('/A/B', '/A/B/C/D', True), ('/A/B', '/A', False),
+                              ('/A/B', '/A/BB', False), ('/A/B', '/A/BB/C', False), ('/A/B', '/X/B/C', False), ('/A', '/A/B', True), ('/A/B/C', '/A/B', False)):
+        try:
+            got = run_function(g_, fn, [None, child], funcs, env={'self.format()': root})
+        except (NotClosedTest, A.NotClosed) as e:
+            raise AnalysisError('path:X12Path.is_child_path cannot be decided for %s / %s: %s' % (root, child, e))
+        if bool(got) != want:
+            bad.append('is_child_path of %s for %s is %s' % (root, child, got))
+    ok = not bad
+    yield Ob('path:X12Path.is_child_path a path is not its own child', ok, ctx.floc(fn),
+             '' if ok else bad[0] + ': reset_to_node would delete the wrong counts')
     fn = ctx.func('x12n_document', 'x12n_document')
     calls = [(norm(c.args[0]), norm(c.args[1])) for c in A.calls_in(fn) if A.call_target(c) == ('walker', 'forceWalkCounterToLoopStart')]
     ok = sorted(calls) == sorted([("'/ISA_LOOP'", "'/ISA_LOOP/ISA'"), ("'/ISA_LOOP/GS_LOOP'", "'/ISA_LOOP/GS_LOOP/GS'")])
